@@ -8,7 +8,7 @@ export CARGO_NET_OFFLINE=true
 mkdir -p "$L"
 if [ ! -d "$L/repo" ]; then git -C /repo worktree add --detach "$L/repo" HEAD >/dev/null 2>&1 || exit 2; fi
 git -C "$L/repo" checkout -q --detach "$(git -C /repo rev-parse HEAD)" 2>/dev/null
-git -C "$L/repo" checkout -- . ; git -C "$L/repo" clean -fdq
+git -C "$L/repo" reset -q --hard ; git -C "$L/repo" clean -fdq
 # the committed /verif at <verif-commit> (not the working tree: edits in progress must not leak into a batch)
 if [ "$(cat "$L/verif.commit" 2>/dev/null)" != "$commit" ]; then
   rm -rf "$L/verif"; mkdir -p "$L/verif"
@@ -19,11 +19,11 @@ if [ "$(cat "$L/verif.commit" 2>/dev/null)" != "$commit" ]; then
 fi
 mkdir -p "$L/verif/evidence" "$L/verif/replays"
 # (later hook commits shift the context of older patches by two lines: fall back to patch(1) with fuzz)
-git -C "$L/repo" apply "$patch" 2>/dev/null || (cd "$L/repo" && patch -p1 -s -F 3 --no-backup-if-mismatch < "$patch" >/dev/null 2>&1) || { for id in "$@"; do echo "$(basename "$patch") $id exit=2 HARNESS-ERROR: patch does not apply"; done; git -C "$L/repo" checkout -- .; exit 2; }
+git -C "$L/repo" apply "$patch" 2>/dev/null || git -C "$L/repo" apply --3way "$patch" >/dev/null 2>&1 || (cd "$L/repo" && git reset -q --hard && patch -p1 -s -F 3 --no-backup-if-mismatch < "$patch" >/dev/null 2>&1) || { for id in "$@"; do echo "$(basename "$patch") $id exit=2 HARNESS-ERROR: patch does not apply"; done; git -C "$L/repo" reset -q --hard; exit 2; }
 cd "$L/verif" || exit 2
 if ! cargo build --release -p harness -p ldpc-toolbox --offline -q 2>"$L/build.log"; then
   for id in "$@"; do echo "$(basename "$patch") $id exit=2 HARNESS-ERROR: build failed: $(grep -m1 '^error' "$L/build.log" | cut -c1-200)"; done
-  git -C "$L/repo" checkout -- .
+  git -C "$L/repo" reset -q --hard
   exit 0
 fi
 for id in "$@"; do
@@ -32,4 +32,4 @@ for id in "$@"; do
   [ $code -eq 2 ] && detail=$(printf '%s\n' "$out" | grep -i 'HARNESS-ERROR\|error' | head -3 | tr '\n' ' ' | cut -c1-400)
   echo "$(basename "$patch") $id exit=$code $detail"
 done
-git -C "$L/repo" checkout -- .
+git -C "$L/repo" reset -q --hard
